@@ -75,6 +75,13 @@ def main():
     d = V / 'seeded' / f'{pid}-{int(k) + offset}'
     d.mkdir(parents=True, exist_ok=True)
     shutil.copy(patch, d / 'patch.diff'); shutil.copy(demo, d / 'demo.py')
+    if (d / 'meta.json').exists():
+        try:
+            old = json.loads((d / 'meta.json').read_text())
+            if old.get('note') and 'note' not in res:
+                res['note'] = old['note']       # the note on how the checks were strengthened survives a re-evaluation
+        except Exception:
+            pass
     (d / 'meta.json').write_text(json.dumps(res, indent=1))
     print(json.dumps(dict(caught_by=res['caught_by'], checks=runs), indent=1))
     return 0
